@@ -461,6 +461,8 @@ func (x Expr) Get(data any) (results []any) {
 					}
 				}
 			} else {
+				// A sibling that shares the marker has to be expanded as well.
+				stack[len(stack)-1] = di &^ descentFlag
 				if int(fi) == len(x)-1 { // last one
 					if top {
 						results = append(results, prev)
@@ -1341,6 +1343,8 @@ func (x Expr) FirstFound(data any) (any, bool) {
 
 				}
 			} else {
+				// A sibling that shares the marker has to be expanded as well.
+				stack[len(stack)-1] = di &^ descentFlag
 				stack = append(stack, prev)
 			}
 		case Root:
